@@ -104,17 +104,22 @@ func genHistory(t *simrt.Tape, cfg histCfg) *History {
 		ses := fmt.Sprint(700 + si*3 + t.Choose(3, "ses"))
 		kind := "ssh"
 		if cfg.Noise {
-			switch t.Choose(6, "kind") {
+			switch t.Choose(9, "kind") {
 			case 0:
 				kind = "cron" // LOGIN record, no ssh login ever
 			case 1:
 				kind = "orphan" // first record seen is not LOGIN
 			case 2:
 				kind = "login-only" // ssh login whose audit session never shows up
+			case 3:
+				kind = "orphan-with-login" // no LOGIN record ever seen, but an ssh login with the PID of its records arrives
+			case 4:
+				kind = "unset-with-login" // LOGIN record carrying the unset session for a PID that also logs in via ssh
+				ses = "4294967295"
 			}
 		}
 		s := &Session{Ses: ses, PID: pid, UID: 1000 + si, Kind: kind}
-		if kind == "ssh" || kind == "login-only" {
+		if kind == "ssh" || kind == "login-only" || kind == "orphan-with-login" || kind == "unset-with-login" {
 			s.Login = GenLogin(t, pid, si+1)
 		}
 		// events are generated later in merged order so that kernel sequence numbers and
@@ -150,8 +155,11 @@ func genHistory(t *simrt.Tape, cfg histCfg) *History {
 		var e *KEvent
 		endIdx := plan[si] - 1 - nAfter[si]
 		switch {
-		case i == 0 && s.Kind != "orphan":
+		case i == 0 && s.Kind != "orphan" && s.Kind != "orphan-with-login":
 			e = k.Login(s.Ses, s.PID, s.UID)
+		case s.Kind == "orphan-with-login" && i == 0:
+			// the session's USER_LOGIN record (same PID as the sshd process) without any LOGIN record before it
+			e = k.UserMsg("USER_LOGIN", s.Ses, s.PID, s.UID, true, 0)
 		case hasEnd[si] && i == endIdx:
 			e = k.UserMsg("CRED_DISP", s.Ses, s.PID, s.UID, true, 0)
 		default:
